@@ -83,6 +83,7 @@ type c06Array struct {
 	size       int
 	gets, puts int
 	c          *sim.RunCtx
+	yields     bool // concurrent-lookups phase: scheduling points around every record read
 }
 
 func (a *c06Array) Get(i int) (local.LocationRecord, error) {
@@ -90,6 +91,12 @@ func (a *c06Array) Get(i int) (local.LocationRecord, error) {
 	if i < 0 || i >= a.size {
 		a.c.Fail("slot-out-of-range", "the map read record slot %d of a table of %d records", i, a.size)
 		return local.LocationRecord{}, local.ErrLocationRecordInvalid
+	}
+	if a.yields {
+		rt.Yield("array.Get")
+		r, err := a.inner.Get(i)
+		rt.Yield("array.Get.done")
+		return r, err
 	}
 	return a.inner.Get(i)
 }
@@ -775,7 +782,21 @@ func drawC06Cfg(t *sim.Tape) c06Cfg {
 	return g
 }
 
-func c06Random(c *sim.RunCtx) {
+func c06Random(c *sim.RunCtx) { c06RandomOpt(c, false) }
+
+// c06ConcurrentLookups: the random profile followed by a phase in which 2-3
+// simulated goroutines look up every key at the same time, as callers holding
+// the store's read lock do. Nothing is stored or released meanwhile, so every
+// lookup must return what the same lookup returned sequentially after the
+// last operation. Record reads and device transfers are scheduling points
+// before and after (fine-grained run), so state a lookup keeps outside its
+// own frame is exposed.
+func c06ConcurrentLookups(c *sim.RunCtx) {
+	c.AtomicYields = true
+	c06RandomOpt(c, true)
+}
+
+func c06RandomOpt(c *sim.RunCtx, concurrent bool) {
 	t := c.T.Plan
 	cfg := drawC06Cfg(t)
 	keys := c06MakeKeys(cfg, t)
@@ -864,6 +885,44 @@ func c06Random(c *sim.RunCtx) {
 		}
 		if c06RunCounter%64 == 1 {
 			w.crossCheckMetrics()
+		}
+		if concurrent && !c.Failed() && w.df == nil {
+			w.faultsOn(false)
+			for j := range w.keys { // sequential baseline, taken now
+				r, ok := w.lookup(j)
+				if !ok {
+					return
+				}
+				w.obs[j] = r
+			}
+			w.arr.yields = true
+			n, done := 2+t.Choose(2), 0
+			for g := 0; g < n; g++ {
+				order := make([]int, 0, 2*len(w.keys))
+				for i := 0; i < 2*len(w.keys); i++ {
+					order = append(order, t.Choose(len(w.keys)))
+				}
+				g := g
+				s.Go("lookup", func() {
+					defer func() { done++ }()
+					for _, j := range order {
+						if c.Failed() {
+							return
+						}
+						r, ok := w.lookup(j)
+						if !ok {
+							return
+						}
+						if r != w.obs[j] {
+							c.Fail("concurrent-lookup-differs", "Get(key %d) by concurrent reader %d returned %s, sequentially (nothing was stored or released since) it returns %s %s", j, g, r, w.obs[j], w.desc())
+							return
+						}
+					}
+				})
+			}
+			s.WaitUntil("concurrent lookups", func() bool { return done == n })
+			w.arr.yields = false
+			c.Count("probe_concurrent_lookups", 1)
 		}
 		c.Stats["c06_ops"] += len(w.history)
 		if cfg.Dev {
@@ -1175,6 +1234,7 @@ func init() {
 		Profiles: []sim.Profile{
 			{Name: "random", Weight: 3, Fn: c06Random},
 			{Name: "real-block-lists", Weight: 2, Fn: c06RealLists},
+			{Name: "concurrent-lookups", Weight: 1, Fn: c06ConcurrentLookups},
 			{Name: "exhaustive-small", Prologue: true, Fn: c06Exhaustive},
 		},
 		Components: map[string][]string{
